@@ -137,7 +137,17 @@ def install():
 
         return commute
 
-    for cls in (R.UnaryOperation, R.Calculation, R.Deduplication, R.Projection, R.Selection, R.Slice, R.Sort, R.PartialJoin, R.Identity):
+    # every class in the UnaryOperation hierarchy that defines its own commute() - found by walking
+    # the subclasses, so that an override added to an extension base class (RowFilter, Reordering)
+    # is seen as well
+    seen, todo = [], [R.UnaryOperation]
+    while todo:
+        cls = todo.pop()
+        if cls in seen:
+            continue
+        seen.append(cls)
+        todo.extend(cls.__subclasses__())
+    for cls in seen:
         if "commute" in cls.__dict__:
             hooks.wrap_method(cls, "commute", make, key="commute")
 
